@@ -138,6 +138,9 @@ type Model struct {
 	// recorded instead of reported, at sites where the run can soundly continue
 	KnownSigs map[string]bool
 	KnownHits map[string]string
+	// Concurrent: operations overlap; pull responses are processed in return order, so the
+	// completeness half and the dead-letter inference of Pull are switched off (safety only)
+	Concurrent bool
 }
 
 // knownOr downgrades a violation whose signature is listed as a known finding.
@@ -642,8 +645,8 @@ func (m *Model) Pull(s *MSub, max int, resp []RecvMsg, t0, t1 time.Time) *Violat
 		}
 		mustDeliver = append(mustDeliver, e)
 	}
-	limitBound := len(resp)+len(mayDL) >= max
-	if limitBound {
+	limitBound := len(resp)+len(mayDL) >= max || m.Concurrent
+	if limitBound && !m.Concurrent {
 		m.probe("pull_truncated")
 	}
 	if !limitBound {
@@ -1196,4 +1199,43 @@ func (m *Model) describe(e *ED) string {
 		}
 	}
 	return sb.String()
+}
+
+// MustDeliverable returns the deliveries of s that are definitely deliverable at [t0,t1]
+// (outstanding, within retention, lease over, not blocked by an ordered predecessor, not due
+// for dead-lettering). Used by the quiescence oracles of the concurrent profiles.
+func (m *Model) MustDeliverable(s *MSub, t0, t1 time.Time) []*ED {
+	cfg := &s.Cfg
+	var out []*ED
+	for _, e := range s.EDs {
+		if e.State != stOut || e.Fuzzy || e.DLMaybe {
+			continue
+		}
+		if !e.mustAlive(t1) || !e.mustDue(t0) {
+			continue
+		}
+		if (cfg.Ordered || s.OrderedToggled) && e.Msg.Key != "" {
+			if s.OrderedToggled {
+				continue
+			}
+			blocked := false
+			for _, p := range s.EDs {
+				if p == e {
+					break
+				}
+				if p.Msg.Key == e.Msg.Key && !p.definitelySettled(t0) {
+					blocked = true
+					break
+				}
+			}
+			if blocked {
+				continue
+			}
+		}
+		if cfg.fullDL() && e.Seen+e.SeenUnc >= int(cfg.MaxAttempts) {
+			continue
+		}
+		out = append(out, e)
+	}
+	return out
 }
